@@ -12,12 +12,13 @@
 (*      state before/after, the logged result and a ghost advanced from    *)
 (*      observations only.                                                 *)
 (***************************************************************************)
-EXTENDS LevelSeq, TraceCommon
+EXTENDS Snapshot, TraceCommon
 
 CONSTANT Fuel
 
-VARIABLES l, sh, ob, sg, ex, sum
-vars == <<l, sh, ob, sg, ex, sum>>
+VARIABLES l, sh, ob, sg, ex, sum,
+          ob2, fk      \* C11: observed restored level and the fork flags (fk.on = a fork is active)
+vars == <<l, sh, ob, sg, ex, sum, ob2, fk>>
 
 MaxFails == 20
 AddFails(s, fs) ==
@@ -29,7 +30,9 @@ Init ==
   /\ l = 1 /\ sh = EmptyShared /\ ob = EmptyShared
   /\ sg = SeqGhostInit(EmptyMap)
   /\ ex = [sc |-> -1, run |-> -1]
-  /\ sum = [execs |-> 0, calls |-> 0, conform |-> 0, drifts |-> {}, fails |-> {}, kf |-> {}, matches |-> 0, trades |-> 0]
+  /\ ob2 = EmptyShared /\ fk = [on |-> FALSE, sameOrder |-> TRUE, noStale |-> TRUE]
+  /\ sum = [execs |-> 0, calls |-> 0, conform |-> 0, drifts |-> {}, fails |-> {}, kf |-> {}, matches |-> 0, trades |-> 0,
+            restores |-> 0, lockstep |-> 0, lockdiff |-> 0]
 
 Line == Rec[l]
 
@@ -39,6 +42,7 @@ DoReset ==
      /\ sh' = o /\ ob' = o
      /\ sg' = SeqGhostInit(o.qmap)
      /\ ex' = [sc |-> Line.sc, run |-> Line.run]
+     /\ ob2' = EmptyShared /\ fk' = [on |-> FALSE, sameOrder |-> TRUE, noStale |-> TRUE]
      /\ sum' = AddFails([sum EXCEPT !.execs = @ + 1],
                         IF ApiOk(Line.st) THEN {} ELSE {[mon |-> "C01", line |-> l, sc |-> Line.sc, run |-> Line.run]})
 
@@ -53,30 +57,56 @@ DoCall ==
          conf == IF modelled THEN mret.t = r.t /\ RetEq(mret, r) /\ run.sh = post
                  ELSE r.t = "ro" /\ sh = post
          v    == CallVerdict(ob, c, r, post, sg, IF modelled THEN [ret |-> mret, sh |-> run.sh] ELSE [ret |-> r, sh |-> sh])
+         lock == fk.on /\ Has(Line, "r2")
+         post2 == IF lock THEN ObsOf(Line.st2) ELSE ob2
+         run2 == RunCall(ob2, c, Fuel)
+         explained == modelled /\ conf /\ ~run2.hang /\ run2.me.ret.t = Line.r2.t /\ RetEq(run2.me.ret, Line.r2)
+                      /\ Book(run2.sh) = Book(post2) /\ LiveOrder(run2.sh) = LiveOrder(post2)
+         v11 == IF lock THEN C11Verdict(fk, r, Line.r2, explained) ELSE {}
          extra == (IF ApiOk(Line.st) THEN {} ELSE {"C01"})
                   \cup (IF r.t = "panic" THEN {"PANIC"} ELSE {})
                   \cup (IF r.t = "hang" /\ c.op # "match" THEN {"HANG"} ELSE {})
+                  \cup (v11 \cap {"C11"})
      IN /\ sh' = post                       \* re-anchor (equal to run.sh when conforming)
         /\ ob' = post
         /\ sg' = v.sg
+        /\ ob2' = post2 /\ fk' = fk
         /\ sum' = AddFails([sum EXCEPT !.calls = @ + 1,
+                                        !.lockstep = IF lock THEN @ + 1 ELSE @,
+                                        !.lockdiff = IF lock /\ v11 # {} THEN @ + 1 ELSE @,
                                         !.conform = IF conf THEN @ + 1 ELSE @,
                                         !.drifts = IF conf \/ Cardinality(@) >= MaxFails THEN @
                                                    ELSE @ \cup {[line |-> l, sc |-> ex.sc, run |-> ex.run]},
-                                        !.kf = @ \cup v.kf,
+                                        !.kf = @ \cup v.kf \cup (v11 \ {"C11"}),
                                         !.matches = IF c.op = "match" THEN @ + 1 ELSE @,
                                         !.trades = IF r.t = "match" THEN @ + Len(r.txs) ELSE @],
                            {Fail(m, l) : m \in v.bad \cup extra})
   /\ UNCHANGED ex
 
-DoEnd == Line.k = "end" /\ UNCHANGED <<sh, ob, sg, ex, sum>>
+DoEnd == Line.k = "end" /\ UNCHANGED <<sh, ob, sg, ex, sum, ob2, fk>>
 
-Next == /\ l <= Len(Rec) /\ l' = l + 1 /\ (DoReset \/ DoCall \/ DoEnd)
+(* C10: a second level built from the first through one restore path (possibly from input
+   whose aggregate figures lie); C11: the same, kept for lock-step continuation *)
+DoRestore ==
+  /\ Line.k \in {"restore", "fork"}
+  /\ LET good == /\ Line.ok
+                 /\ ObsOf(Line.st) = ob                       \* building the copy did not disturb the original (purity)
+                 /\ RestoredOk(ob, Line.price2, ObsOf(Line.st2), <<>>)
+                 /\ ApiOk(Line.st2)
+     IN /\ sum' = AddFails([sum EXCEPT !.restores = @ + 1], IF good THEN {} ELSE {Fail("C10", l)})
+        /\ IF Line.k = "fork" /\ Line.ok
+           THEN LET o2 == ObsOf(Line.st2) IN
+                ob2' = o2 /\ fk' = [on |-> TRUE, sameOrder |-> ForkFlags(ob, o2).sameOrder, noStale |-> ForkFlags(ob, o2).noStale]
+           ELSE UNCHANGED <<ob2, fk>>
+  /\ UNCHANGED <<sh, ob, sg, ex>>
+
+Next == /\ l <= Len(Rec) /\ l' = l + 1 /\ (DoReset \/ DoCall \/ DoEnd \/ DoRestore)
 Spec == Init /\ [][Next]_vars
 
 Done == l = Len(Rec) + 1
 Summary == [lines |-> Len(Rec), execs |-> sum.execs, calls |-> sum.calls, conform |-> sum.conform,
-            matches |-> sum.matches, trades |-> sum.trades,
+            matches |-> sum.matches, trades |-> sum.trades, restores |-> sum.restores,
+            lockstep |-> sum.lockstep, lockdiff |-> sum.lockdiff,
             drifts |-> SetToSeq(sum.drifts), fails |-> SetToSeq(sum.fails), kf |-> SetToSeq(sum.kf)]
 EmitSummary == Done => PrintT(<<"SUMMARY", ToJson(Summary)>>)
 =============================================================================
